@@ -1729,3 +1729,233 @@ def _k_cli(C, tier):
         else:
             rec.add("main: the message written to stderr is `Error: ` followed by the error and a newline", _structural(tpl == "Error: {}\n" and "new_display::<rsass::Error>" in src_main, "template %r" % tpl))
     return rec
+
+
+# ------------------------------------------------------------------------------------------------ C07
+def _rust_unescape(t):
+    """The text of a string literal as printed in MIR (`\\n`, `\\"`, `\\u{feff}`) -> the string it denotes."""
+    out, i = "", 0
+    while i < len(t):
+        c = t[i]
+        if c != "\\":
+            out += c
+            i += 1
+            continue
+        n = t[i + 1] if i + 1 < len(t) else ""
+        if n == "u" and t[i + 2:i + 3] == "{":
+            j = t.index("}", i)
+            out += chr(int(t[i + 3:j], 16))
+            i = j + 1
+        elif n == "x":
+            out += chr(int(t[i + 2:i + 4], 16))
+            i += 4
+        else:
+            out += {"n": "\n", "t": "\t", "r": "\r", "0": "\0", "\\": "\\", '"': '"', "'": "'"}.get(n, n)
+            i += 2
+    return out
+
+
+def _bvint(term):
+    m = re.match(r"^#x([0-9a-fA-F]+)$", term or "")
+    if m:
+        return int(m.group(1), 16)
+    m = re.match(r"^\(_ bv(\d+) \d+\)$", term or "")
+    return int(m.group(1)) if m else None
+
+
+def k_output_frame(E, tier):
+    """C07 (frame scope): the tail of CssData::into_buffer, over an ARBITRARY written buffer (symbolic length, symbolic
+    trailing bytes, symbolic is_ascii): the result is empty or ends with exactly one newline; it is the buffer itself when
+    that is pure ASCII and otherwise the buffer behind `@charset "UTF-8";\\n` (expanded) or a byte-order mark (compressed);
+    only trailing newlines and, in compressed style, one `;` are removed."""
+    f = E.find(name_re=r"^cssdata::<impl at .*>::into_buffer$")
+    rec = Rec("CssData::into_buffer (framing tail)", f, E)
+    T = 10                      # trailing bytes tracked
+    MAXNL = 4 if tier == "quick" else 7
+    ctx = E.ctx()
+    L = ctx.fresh_scalar(("bv", 64, False), "written_len")
+    ctx.assumptions.append("(bvule %s #x7fffffffffffffff)" % L.term)
+    tail0 = [ctx.fresh_scalar(("bv", 8, False), "written_last%d" % i) for i in range(T)]
+    A = ctx.fresh_scalar("bool", "written_is_ascii")
+    Cflag = ctx.fresh_scalar("bool", "compressed")
+    written = sym.Opaque("Vec<u8>", "written-buffer", ctx)
+    written.vkey = "written"
+    marks = []
+
+    def bv8(n):
+        return "#x%02x" % n
+
+    def bv64(n):
+        return "#x%016x" % n
+
+    def get(st, v):
+        v = v if not isinstance(v, sym.Ref) else None
+        return st.cells.get("vec:" + v.vkey) if v is not None and hasattr(v, "vkey") else None
+
+    def vec_of(ex, st, x):
+        x = _full(ex, st, x)
+        if not hasattr(x, "vkey"):
+            raise sym.Unsupported("a Vec<u8> the kernel does not track")
+        return x
+
+    def m_take(ex, st, c, a, d):
+        st.cells["vec:written"] = (L.term, tuple(t.term for t in tail0))
+        return written
+
+    def m_with_capacity(ex, st, c, a, d):
+        v = sym.Opaque("Vec<u8>", "framed-buffer", ctx)
+        v.vkey = "framed"
+        st.cells["vec:framed"] = (bv64(0), tuple(bv8(0) for _ in range(T)))
+        return v
+
+    def m_extend_from_slice(ex, st, c, a, d):
+        v = vec_of(ex, st, a[0])
+        s = _full(ex, st, a[1])
+        if not isinstance(s, sym.ConstStr):
+            raise sym.Unsupported("extend_from_slice of a non-literal")
+        ln, _tl = st.cells["vec:" + v.vkey]
+        if ln != bv64(0):
+            raise sym.Unsupported("extend_from_slice on a non-empty buffer")
+        text = _rust_unescape(s.s)
+        b = text.encode("utf-8")
+        marks.append(text)
+        st.events.append(sym.Event("mark", a, text, len(st.pc)))
+        st.cells["vec:" + v.vkey] = (bv64(len(b)), tuple(bv8(b[len(b) - 1 - i]) if i < len(b) else bv8(0) for i in range(T)), b)
+        return sym.Unit()
+
+    def m_extend(ex, st, c, a, d):
+        v, w = vec_of(ex, st, a[0]), vec_of(ex, st, a[1])
+        cell = st.cells["vec:" + v.vkey]
+        if len(cell) != 3:
+            raise sym.Unsupported("extend of a buffer that is not a literal prefix")
+        b = cell[2]
+        wl, wt = st.cells["vec:" + w.vkey][:2]
+        newlen = "(bvadd %s %s)" % (bv64(len(b)), wl)
+        tl = []
+        for i in range(T):
+            # byte i from the end: from the written buffer if it has more than i bytes, else from the prefix
+            t = bv8(0)
+            for j in range(i, -1, -1):          # written buffer has exactly j bytes, j <= i: prefix byte (i - j) from its end
+                k = i - j
+                pb = bv8(b[len(b) - 1 - k]) if k < len(b) else bv8(0)
+                t = "(ite (= %s %s) %s %s)" % (wl, bv64(j), pb, t)
+            tl.append("(ite (bvugt %s %s) %s %s)" % (wl, bv64(i), wt[i], t))
+        st.cells["vec:" + v.vkey] = (newlen, tuple(tl))
+        st.events.append(sym.Event("prefixed", a, None, len(st.pc)))
+        return sym.Unit()
+
+    def m_last(ex, st, c, a, d):
+        v = vec_of(ex, st, a[0])
+        ln, tl = st.cells["vec:" + v.vkey][:2]
+        return sym.Agg("LastView", None, {"len": ln, "byte": tl[0]})
+
+    def m_opt_eq(ex, st, c, a, d):
+        x, y = _full(ex, st, a[0]), _full(ex, st, a[1])
+        if not (isinstance(x, sym.Agg) and "byte" in x.fields):
+            return None
+        if not (isinstance(y, sym.Agg) and y.variant == "Some"):
+            raise sym.Unsupported("comparison of last() with something that is not Some(&byte)")
+        cb = _full(ex, st, y.fields["0"])
+        st.events.append(sym.Event("looked-at-last", a, _bvint(cb.term), len(st.pc)))
+        return sym.mk_bool("(and (not (= %s %s)) (= %s %s))" % (x.fields["len"], bv64(0), x.fields["byte"], cb.term))
+
+    def m_pop(ex, st, c, a, d):
+        v = vec_of(ex, st, a[0])
+        ln, tl = st.cells["vec:" + v.vkey][:2]
+        st.cells["vec:" + v.vkey] = ("(bvsub %s %s)" % (ln, bv64(1)), tuple(tl[1:]) + (bv8(0),))
+        seen = [e for e in st.events if e.callee == "looked-at-last"]
+        st.events.append(sym.Event("pop", a, seen[-1].result if seen else None, len(st.pc)))
+        return sym.Opaque("Option<u8>", "popped", ctx)
+
+    def m_push(ex, st, c, a, d):
+        v = vec_of(ex, st, a[0])
+        b = _full(ex, st, a[1])
+        ln, tl = st.cells["vec:" + v.vkey][:2]
+        st.cells["vec:" + v.vkey] = ("(bvadd %s %s)" % (ln, bv64(1)), (b.term,) + tuple(tl[:-1]))
+        st.events.append(sym.Event("push", a, _bvint(b.term), len(st.pc)))
+        return sym.Unit()
+
+    def m_is_empty(ex, st, c, a, d):
+        v = vec_of(ex, st, a[0])
+        return sym.mk_bool("(= %s %s)" % (st.cells["vec:" + v.vkey][0], bv64(0)))
+
+    def m_len(ex, st, c, a, d):
+        v = vec_of(ex, st, a[0])
+        return sym.Scalar(("bv", 64, False), st.cells["vec:" + v.vkey][0])
+
+    def m_strlen(ex, st, c, a, d):
+        s = _full(ex, st, a[0])
+        return sym.Scalar(("bv", 64, False), bv64(len(_rust_unescape(s.s).encode("utf-8")))) if isinstance(s, sym.ConstStr) else None
+
+    models = [(r"^CssBuf::new$", lambda ex, st, c, a, d: sym.Opaque("CssBuf", "cssbuf", ctx)), (r" as IntoIterator>::into_iter$", lambda ex, st, c, a, d: a[0]),
+              (r" as Iterator>::next$", lambda ex, st, c, a, d: sym.Agg(d, "None", {}, 0)), (r"^CssBuf::take$", m_take),
+              (r"Format::is_compressed$", lambda ex, st, c, a, d: Cflag), (r"^<Vec<u8> as Deref>::deref$", lambda ex, st, c, a, d: a[0]),
+              (r"is_ascii$", lambda ex, st, c, a, d: A), (r"^core::str::<impl str>::len$", m_strlen), (r"^Vec::<u8>::len$", m_len),
+              (r"^Vec::<u8>::with_capacity$", m_with_capacity), (r"^core::str::<impl str>::as_bytes$", lambda ex, st, c, a, d: a[0]),
+              (r"^Vec::<u8>::extend_from_slice$", m_extend_from_slice), (r"^<Vec<u8> as Extend<u8>>::extend::<Vec<u8>>$", m_extend),
+              (r"^core::slice::<impl \[u8\]>::last$", m_last), (r"^<Option<&u8> as PartialEq>::eq$", m_opt_eq), (r"^Vec::<u8>::pop$", m_pop),
+              (r"^Vec::<u8>::push$", m_push), (r"^Vec::<u8>::is_empty$", m_is_empty)] + BASE_MODELS
+    ex = sym.Executor(ctx, models=models, feasibility=E.feasibility(ctx), max_paths=4000)
+    ex.unroll = MAXNL + 2
+    allp = ex.run(f, [sym.Opaque("CssData", "data", ctx), sym.Opaque("Format", "format", ctx)])
+    paths = [p for p in allp if p.status == "return"]
+    cut = [p for p in allp if p.status == "unwind-bound"]
+    rec.paths = len(paths)
+    rec.notes.append("%d paths end at the unwinding bound (more than %d trailing newlines): outside the bound" % (len(cut), MAXNL))
+    if len(paths) < 8:
+        _inconclusive(rec, "into_buffer's tail explores its trimming outcomes")
+        return rec
+    NL, SEMI = bv8(10), bv8(59)
+    worst = {"frame": None, "marker": None, "trim": None}
+    t_frame = 0.0
+    n_frame = 0
+    for p in paths:
+        if not (isinstance(p.ret, sym.Agg) and p.ret.variant == "Ok"):
+            continue
+        v = _full(ex, None, p.ret.fields["0"])
+        key = getattr(v, "vkey", None)
+        if key is None:
+            worst["frame"] = worst["frame"] or {"verdict": "inconclusive", "per_solver": {}, "time_s": 0}
+            continue
+        ln, tl = p.cells["vec:" + key][:2] if ("vec:" + key) in p.cells else (None, None)
+        if ln is None:
+            worst["frame"] = {"verdict": "inconclusive", "per_solver": {"structural": "final buffer state not available"}, "time_s": 0}
+            break
+        # (1) empty, or exactly one newline at the end
+        prop = "(or (= %s %s) (and (= %s %s) (or (= %s %s) (not (= %s %s)))))" % (ln, bv64(0), tl[0], NL, ln, bv64(1), tl[1], NL)
+        r = E.decide(ctx, p.pc + ["(not %s)" % prop], model_names=[L.term, Cflag.term, A.term] + [t.term for t in tail0[:MAXNL + 3]])
+        t_frame += r["time_s"]
+        n_frame += 1
+        if r["verdict"] != "holds" and (worst["frame"] is None or worst["frame"]["verdict"] == "holds"):
+            worst["frame"] = r
+        elif worst["frame"] is None:
+            worst["frame"] = r
+        # (2) marker
+        mk = [e.result for e in p.events if e.callee == "mark"]
+        if key == "written":
+            okm = E.decide(ctx, p.pc + ["(not %s)" % A.term])["verdict"] == "holds" and not mk         # only on paths where the buffer is ASCII
+        else:
+            is_c = E.decide(ctx, p.pc + ["(not %s)" % Cflag.term])["verdict"] == "holds"
+            is_e = E.decide(ctx, p.pc + [Cflag.term])["verdict"] == "holds"
+            nonascii = E.decide(ctx, p.pc + [A.term])["verdict"] == "holds"
+            okm = nonascii and len(mk) == 1 and ((is_c and mk[0] == "﻿") or (is_e and mk[0] == '@charset "UTF-8";\n')) and any(e.callee == "prefixed" for e in p.events)
+        if not okm:
+            worst["marker"] = {"verdict": "violated", "per_solver": {"structural": "result=%s marks=%r" % (key, mk)}, "time_s": 0}
+        # (3) only trailing newlines and (compressed) one semicolon are removed; one newline is appended
+        pops = [e.result for e in p.events if e.callee == "pop"]
+        pushes = [e.result for e in p.events if e.callee == "push"]
+        semis = [x for x in pops if x == 59]
+        okt = all(x in (10, 59) for x in pops) and len(semis) <= 1 and len(pushes) <= 1 and all(x == 10 for x in pushes)
+        if semis:
+            okt = okt and E.decide(ctx, p.pc + ["(not %s)" % Cflag.term])["verdict"] == "holds"
+        if not okt:
+            worst["trim"] = {"verdict": "violated", "per_solver": {"structural": "pops %r pushes %r" % (pops, pushes)}, "time_s": 0}
+    fr = worst["frame"] or {"verdict": "inconclusive", "per_solver": {}, "time_s": 0}
+    fr = dict(fr)
+    fr["time_s"] = round(t_frame, 3)
+    rec.add("for every written buffer (any length, any content, up to %d trailing newlines): the result is empty or ends with exactly one newline (%d paths, each decided by both solvers)" % (MAXNL, n_frame),
+            fr)
+    rec.add("the result is the written buffer itself exactly when that is pure ASCII; otherwise it is the buffer behind `@charset \"UTF-8\";\\n` (expanded) or a byte-order mark (compressed)",
+            worst["marker"] or _structural(True))
+    rec.add("only trailing newlines and, in compressed style only, one `;` are removed from the end, and at most one newline is appended", worst["trim"] or _structural(True))
+    return rec
